@@ -130,10 +130,21 @@ def canon_outcome(o):
     end = o["end"]
     if end in ("race", "deadlock", "panic"):
         return (end, "")
-    return (end, canon_key(o["regs"], o.get("drops")))
+    return (end, canon_key(o["regs"], o.get("drops"), o.get("stat")))
 
 
-def canon_key(regs, drops):
-    if isinstance(drops, dict):
-        drops = [drops[k] for k in sorted(drops)]
-    return json.dumps({"regs": [list(r) for r in regs], "drops": list(drops or [])}, sort_keys=True)
+def _vals(d):
+    if isinstance(d, dict):
+        return [d[k] for k in sorted(d)]
+    return list(d or [])
+
+
+def canon_key(regs, drops, stat=None):
+    """stat: spec side [tl: key -> inits, lz: static -> instances]; impl side {"tl": [[init, drop]..], "lz": [[init, drop]..]}"""
+    k = {"regs": [list(r) for r in regs], "drops": _vals(drops)}
+    if stat:
+        tl, lz = _vals(stat.get("tl")), _vals(stat.get("lz"))
+        if tl or lz:
+            # the spec says every initialised value is dropped by the end of the iteration: [n] stands for [n, n]
+            k["stat"] = [[x, x] if not isinstance(x, list) else x for x in tl] + [[x, x] if not isinstance(x, list) else x for x in lz]
+    return json.dumps(k, sort_keys=True)
